@@ -25,6 +25,9 @@ CLAIMED = {
  'C16': dict(
   text="Coq theorems over TestCmd.v (get_by_rules, get_status_result, the plain and structured classification of a test case, JUnit marks): an expectation is met iff some same-named definition has the expected non-SKIP status or all are SKIP when SKIP is expected (any number of definitions); a single definition is met iff its status equals the expectation; a mismatch lists every evaluated status; the statuses matched are those of the same-named RuleCheck records in definition order; rules without expectation are never failures; every rule lands in one of passed/failed/skipped; plain, structured and JUnit classifications coincide. Tie: get_status_result is compared exhaustively (every expectation x every status list up to the tier's length) through a hook; `test -o json` of the real binary is compared, case by case inside Coq, with the model's classification of the statuses recorded for the same rules and input. Monitor: the status `test` reports as evaluated equals what `validate --structured` reports for the same document; plain/JSON/YAML/JUnit renderings agree; exit 7 iff a failed rule.",
   note="tie = hooks test_status_result / eval_dump + CLI runs + python parsers of the four renderings. Inputs are JSON-compatible documents."),
+ 'C17': dict(
+  text="Coq theorems over Merge.v (PathAwareValue::merge, the left-to-right fold over the -i files, the per-data-file merge): two maps without a common key merge to the union with nothing lost or changed; a key defined by both sources is Err(MultipleValues), never a silent choice; a successful merge preserves every entry of both sides and the alignment of the keys vector with the values map; for P1..Pn and D with pairwise distinct top-level keys the evaluated input is the document whose top-level entries are those of P1..Pn, D; permuting the parameter files only permutes the entries. Tie: PathAwareValue::merge is compared inside Coq with the model on every ordered pair of a document universe (value, keys vector, paths, error kind). Monitor on the real binary: documents split at random into 1..3 parameter files + data, every order of -i, plain and --structured, against the pre-merged document (rule statuses, file status, exit code); a key defined twice must give an error exit with a diagnostic in both modes.",
+  note="tie = hook merge/doc_dump + CLI runs. The model mirrors fix 273e441 (structured mode unwrapped the merge error). Not proved: that evaluation depends on a document only through its stripped value (path-irrelevance of verdicts); that part is carried by the end-to-end comparison."),
 }
 
 NOT_CLAIMED = {}
